@@ -822,7 +822,7 @@ func (x *Exec) leaseObligation(st *State, c *callCtx, ce *cmdEval) {
 	x.oblige(st, "guarantee", "a claimed task is only taken from its holder after its lease or timeout was observed to have run out (xguar.C07.lease)", goal, c.common.Pos(), []string{"C07"})
 }
 
-var guaranteeProps = map[string][]string{"promises": {"C01", "C04"}, "callbacks": {"C05"}, "tasks": {"C07"}, "locks": {"C09"}, "schedules": {"C10"}}
+var guaranteeProps = map[string][]string{"promises": {"C01", "C04", "C02"}, "callbacks": {"C05", "C02"}, "tasks": {"C07", "C02"}, "locks": {"C09", "C02"}, "schedules": {"C10", "C02"}}
 
 // guaranteeObligations: the transaction just applied is a step of the
 // guarantee relation (and keeps the row invariant) for every table it
